@@ -199,6 +199,15 @@ def run_case(ctx, rng, index, casedir):
     out1 = os.path.join(casedir, "single.txt")
     fasta = rng.random() < 0.5
     i = rng.randrange(len(plist))
+    old_cwd = None
+    if rng.random() < 0.15 and "/" not in plist[i] and len(plist[i].encode()) < 200:
+        # the current directory holds a regular file named exactly like the path (results of an earlier
+        # run filed under the path they belong to): the argument still is a path
+        old_cwd = os.getcwd()
+        with open(os.path.join(casedir, plist[i]), "w") as f:
+            f.write(rng.choice(["ACGTTTGCA\n", "", ">s1>s2\n", exp_list[i] + "\n"]))
+        os.chdir(casedir)
+        M.hit("file_named_like_the_path_in_cwd")
     if rng.random() < 0.3:  # default output: stdout
         o = run_cli(["find_path", gpath, plist[i]] + (["--fasta"] if fasta else []))
         if o.ok:
@@ -207,6 +216,8 @@ def run_case(ctx, rng, index, casedir):
         M.hit("cli_stdout")
     else:
         o = run_cli(["find_path", gpath, plist[i], "-o", out1] + (["--fasta"] if fasta else []))
+    if old_cwd is not None:
+        os.chdir(old_cwd)
     M.hit("cli_single")
     if gz:
         M.hit("cli_gz")
